@@ -2,6 +2,8 @@
 EXTENDS Sched, Json
 CONSTANTS p1, p2
 MCPieceOf == (0 :> 0) @@ (1 :> 0) @@ (2 :> 1)
+\* pieces of three blocks (a piece length that is a multiple of the block size but not a power of two), then one short block
+MCPieceOf3 == (0 :> 0) @@ (1 :> 0) @@ (2 :> 0) @@ (3 :> 1)
 
 \* reduced alphabet for the two-peer configuration
 Msgs2 == {[k |-> n] : n \in {"unchoke", "choke"}} \cup {[k |-> "bitfield", s |-> Piece]}
